@@ -87,6 +87,8 @@ type repSpec struct {
 	Family int      `json:"family"`
 	Items  []srcOpt `json:"items"`
 	Seq    []int    `json:"seq"`
+	// MultiDoc (files only): the occurrences are the YAML documents of ONE values file
+	MultiDoc bool `json:"multi_doc,omitempty"`
 }
 
 func (r *repSpec) String() string {
@@ -108,7 +110,11 @@ func (r *repSpec) String() string {
 		}
 		items = append(items, n+"="+canon(it.Tree))
 	}
-	return "given in the order [" + strings.Join(parts, ", ") + "] with " + strings.Join(items, "; ")
+	how := "given in the order ["
+	if r.MultiDoc {
+		how = "one values file with the YAML documents ["
+	}
+	return how + strings.Join(parts, ", ") + "] with " + strings.Join(items, "; ")
 }
 
 // occ is one occurrence of a user source on the command line, in the order
@@ -213,7 +219,8 @@ func subMaps(leaves []any) []any {
 // baseFamily lists the abstract trees a source may hold, simplest first.
 //
 //	core (12 trees):    the kinds of override one level deep, used for tuples of 4 sources (thorough)
-//	quick (20 trees):   key a carries the 4 leaves, every sub-map over {absent,S1,null}^2 and two sub-maps with a list;
+//	quick (21 trees):   key a carries the 4 leaves, every sub-map over {absent,S1,null}^2, two sub-maps with a list and one
+//	                    sub-map holding a table (depth 3);
 //	                    key b absent; plus 5 trees in which b is a bystander or competes
 //	thorough (35 trees): every sub-map over {absent,S1,L,null}^2, depth-3 chains, b-side shapes
 func baseFamily(level string) []mp {
@@ -231,7 +238,8 @@ func baseFamily(level string) []mp {
 			shapes = append(shapes, subMaps([]any{lS1, lL, lN})...)
 		} else {
 			shapes = append(shapes, subMaps([]any{lS1, lN})...)
-			shapes = append(shapes, mp{"a": lL}, mp{"a": lL, "b": lS1})
+			// one table below a table: shape disagreements (table vs scalar/list/null) one level down
+			shapes = append(shapes, mp{"a": lL}, mp{"a": lL, "b": lS1}, mp{"a": mp{"a": lS1}})
 		}
 		for _, s := range shapes {
 			out = append(out, mp{"a": s})
@@ -515,11 +523,25 @@ func (w *work) flagValue(src, scope int, kind string) string {
 }
 
 // options builds the real values.Options for the user sources of a case.
-func (w *work) options(lc layerCase) values.Options {
-	var o values.Options
+func (w *work) options(lc layerCase) (o values.Options) {
+	var multi []byte
+	defer func() {
+		if multi != nil {
+			o.ValueFiles = append(o.ValueFiles, w.file("multi|"+string(multi), func() []byte { return multi }))
+		}
+	}()
 	for _, oc := range occurrences(lc) {
 		oc := oc
 		switch {
+		case (oc.src == srcF1 || oc.src == srcF2) && oc.tag >= 0 && lc.Rep.MultiDoc:
+			b, err := yaml.Marshal(oc.doc(lc.Shape))
+			if err != nil {
+				panic(err)
+			}
+			if multi != nil {
+				multi = append(multi, "---\n"...)
+			}
+			multi = append(multi, b...)
 		case oc.src == srcF1 || oc.src == srcF2:
 			key := fmt.Sprintf("vf|%d|%d|%d|%s", oc.src, lc.Shape, oc.tag, canon(oc.o.Tree))
 			o.ValueFiles = append(o.ValueFiles, w.file(key, func() []byte {
@@ -624,10 +646,12 @@ func descendsThroughNonMap(acc, t mp) bool {
 }
 
 type scopeRef struct {
-	user     mp     // fold of the user sources (nulls kept)
-	grouped  string // canonical expected values: user sources folded first, then completed from parent section and defaults
-	chained  string // canonical expected values of the strict chain (a null cuts off everything below it, also under a later map)
-	groupedT mp     // normalised tree of grouped
+	user     mp         // fold of the user sources (nulls kept)
+	grouped  string     // canonical expected values: user sources folded first, then completed from parent section and defaults
+	chained  string     // canonical expected values of the strict chain (a null cuts off everything below it, also under a later map)
+	groupedT mp         // normalised tree of grouped
+	gone     [][]string // paths at which a winning null sits on a key the chart's own values.yaml defines: the key must be absent, not null
+	goneOver []string   // kind of the default under each of them
 	conflict bool
 }
 
@@ -650,9 +674,99 @@ func refScope(lc layerCase, scope int) scopeRef {
 	}
 	r.user = user
 	r.groupedT = norm(fill(fill(user, par), def), true).(mp)
+	gonePaths(fill(user, par), def, nil, &r.gone, &r.goneOver)
 	r.grouped = canon(r.groupedT)
 	r.chained = canon(norm(chain, true))
 	return r
+}
+
+// gonePaths lists the paths where hi holds an explicit null and the chart's own
+// defaults define the same key ("an explicit null removes a default"): there
+// the key itself has to disappear. A null on a key that no default defines may
+// stay as a null-valued key (Helm keeps it; a template cannot use it either way).
+func gonePaths(hi, def mp, prefix []string, out *[][]string, over *[]string) {
+	keys := make([]string, 0, len(hi))
+	for k := range hi {
+		keys = append(keys, k)
+	}
+	sort.Strings(keys)
+	for _, k := range keys {
+		dv, ok := def[k]
+		if !ok {
+			continue
+		}
+		p := append(append([]string{}, prefix...), k)
+		if hi[k] == nil {
+			*out = append(*out, p)
+			*over = append(*over, nkind(dv, true))
+			continue
+		}
+		if hm, ok := hi[k].(mp); ok {
+			if dm, ok := dv.(mp); ok {
+				gonePaths(hm, dm, p, out, over)
+			}
+		}
+	}
+}
+
+// hasKeyAt reports whether the raw value tree has the key named by path.
+func hasKeyAt(m mp, path []string) bool {
+	for i, k := range path {
+		v, ok := m[k]
+		if !ok {
+			return false
+		}
+		if i == len(path)-1 {
+			return true
+		}
+		m, ok = asMap(v)
+		if !ok {
+			return false
+		}
+	}
+	return false
+}
+
+// shapeFloors names the shape disagreements between adjacent layers that Helm
+// merges map-wise (values files, documents of one file, --set-json objects):
+// what the earlier layers left at a key vs. what the next layer says there,
+// one level ("a") and two levels ("a.a") deep. Vacuity guards only.
+func shapeFloors(lc layerCase) []string {
+	var out []string
+	acc := mp{}
+	first := true
+	var walk func(prev, next mp, depth int)
+	walk = func(prev, next mp, depth int) {
+		for k, nv := range next {
+			pv, ok := prev[k]
+			if !ok {
+				continue
+			}
+			pk, nk := nkind(pv, true), nkind(nv, true)
+			if (pk == "map") != (nk == "map") {
+				d := ""
+				if depth > 1 {
+					d = "nested-"
+				}
+				out = append(out, "mapmerge:"+d+"earlier-"+pk+"-later-"+nk)
+			}
+			if pm, ok := pv.(mp); ok {
+				if nm, ok := nv.(mp); ok && depth < 2 {
+					walk(pm, nm, depth+1)
+				}
+			}
+		}
+	}
+	for _, oc := range occurrences(lc) {
+		mapwise := oc.src == srcF1 || oc.src == srcF2 || (oc.src == srcJSON && oc.o.Variant == 0)
+		t := oc.at(0)
+		if mapwise && !first {
+			walk(acc, t, 1)
+		}
+		first = false
+		acc = over(acc, t)
+	}
+	return out
 }
 
 // ---------- execution ----------
@@ -735,6 +849,7 @@ func execLayer(w *work, lc layerCase) ([]lfail, layerObs) {
 		refs[s] = refScope(lc, s)
 		conflict = conflict || refs[s].conflict
 	}
+	obs.floors = append(obs.floors, shapeFloors(lc)...)
 	opts := w.options(lc)
 	var user mp
 	var err error
@@ -816,6 +931,25 @@ func execLayer(w *work, lc layerCase) ([]lfail, layerObs) {
 		}
 		obs.classes = append(obs.classes, cls)
 		obs.floors = append(obs.floors, fl...)
+		// "removes a default": where a winning null sits on a key of the chart's own defaults the
+		// key is gone from the values, not left behind as key: null (range / toYaml / hasKey see the difference)
+		stillThere := func() {
+			for i, gp := range r.gone {
+				obs.floors = append(obs.floors, "saw-null-over-default-"+r.goneOver[i])
+				if len(gp) > 1 {
+					obs.floors = append(obs.floors, "saw-nested-null-over-default-"+r.goneOver[i])
+					if s > 0 {
+						obs.floors = append(obs.floors, "saw-nested-null-over-subchart-default-"+r.goneOver[i])
+					}
+				}
+				if hasKeyAt(cur, gp) {
+					fails = append(fails, lfail{"render/" + scopeTags[s] + "/key-kept-as-null-over-default-" + r.goneOver[i] + "/depth=" + strconv.Itoa(len(gp)),
+						fmt.Sprintf("chart scope %s: an explicit null was laid over the chart's default %s at %q but the key is still present (as %s) instead of removed; %s",
+							chartNames[s], r.goneOver[i], strings.Join(gp, "."), show(pick(cur, "a", "b")), lc)})
+					return
+				}
+			}
+		}
 		if r.grouped != r.chained {
 			// A null below a map of a higher source: the statement does not say whether the
 			// null still cuts off the sources below it. Both readings are accepted.
@@ -823,12 +957,14 @@ func execLayer(w *work, lc layerCase) ([]lfail, layerObs) {
 			switch gs {
 			case r.grouped:
 				obs.classes = append(obs.classes, "null-under-higher-map:lower-sources-shine-through")
+				stillThere()
 				continue
 			case r.chained:
 				obs.classes = append(obs.classes, "null-under-higher-map:null-cuts-off")
 				continue
 			}
 		} else if gs == r.grouped {
+			stillThere()
 			continue
 		}
 		p, gk, wk, _ := firstDiff(got, r.groupedT, "")
@@ -1002,6 +1138,9 @@ func classifyRep(lc layerCase) (string, []string) {
 	if r.Family != srcF1 && overlap && n >= 2 && r.Seq[n-1] != r.Seq[n-2] {
 		floors = append(floors, "saw-same-flag-twice-later-wins")
 	}
+	if r.MultiDoc {
+		return "multi-document-file:order=" + seq, []string{"saw-multi-document-values-file"}
+	}
 	return "repeat-" + famName(r.Family) + ":order=" + seq, floors
 }
 
@@ -1168,7 +1307,11 @@ func layerKey(lc layerCase, f lfail) string {
 		for _, i := range lc.Rep.Seq {
 			seq += strconv.Itoa(i)
 		}
-		parts = append(parts, "repeated-"+famName(lc.Rep.Family)+"-order-"+seq)
+		if lc.Rep.MultiDoc {
+			parts = append(parts, "multi-document-file-order-"+seq)
+		} else {
+			parts = append(parts, "repeated-"+famName(lc.Rep.Family)+"-order-"+seq)
+		}
 	}
 	return core.SanitizeKey(fmt.Sprintf("layer/%s/%s/levels=%d", f.Class, strings.Join(parts, "+"), lc.Shape))
 }
